@@ -126,8 +126,13 @@ class GenB(GenA):
             self.maybe_subslice(c)
             if c['c'] == 'dilute' and c.get('name') and self.run.known is not None \
                     and self.run.known.active('recipe_dilute_rename') and not self.p.get('allow_known') \
-                    and self.p.get('prop') in ('C09', 'C15', 'C17', 'C18', None):
-                del c['name']                   # known finding: renaming dilutes are only exercised by its witness
+                    and self.p.get('prop') in ('C09', 'C15', 'C17', 'C18', None) and not self.p.get('allow_rename'):
+                del c['name']                   # known finding: tracking loses a renamed container (only *its* answers are excused)
+            if c['c'] == 'dilute' and c.get('name') and rng.random() < 0.3:
+                # the new name is one that another declared object already carries
+                others = [n for n in self.run.lc.declared if n != c['tgt'][0]]
+                if others:
+                    c['name'] = rng.choice(others)
             if c['c'] == 'fill_to' and len(c['tgt']) > 1 and self.run.known is not None \
                     and self.run.known.active('recipe_fill_to_slice') and not self.p.get('allow_known'):
                 c['tgt'] = [c['tgt'][0]]        # known finding: slices are only filled by its witness
